@@ -2,7 +2,7 @@
 //! child module.  All harnesses here have full-domain symbolic inputs and no input-dependent loop (only fixed
 //! <= 32-iteration comparisons): COMPLETE proofs.  They validate the hand-written memory images (`Wire::wire` /
 //! `Wire::decodes`), the conversion stubs (`hdr_of_code`, `hdr_of_status`, `hdr_of_item`, `u8_of_format`,
-//! `u8_of_rate`, `u32_is_multiple_of`), the bitflags models and the constants of units/cmd_sound.vrs against the real
+//! `u8_of_rate`, `u32_is_multiple_of` (bounded)), the bitflags models and the constants of units/cmd_sound.vrs against the real
 //! types.  (No scenario harness: the driver's four 32-entry queues are beyond what CBMC handles here; see report.)
 #![allow(dead_code, missing_docs, clippy::undocumented_unsafe_blocks, static_mut_refs)]
 extern crate alloc;
@@ -57,10 +57,13 @@ fn c20_snd_consts() {
     assert!(PCMState::default() == PCMState::SetParams, "C20: PCMState::default()");
 }
 
-/// C20 K-complete: `u32::is_multiple_of` for ALL pairs (the stub `u32_is_multiple_of`).
+/// C20 K-bounded: `u32::is_multiple_of` (the stub `u32_is_multiple_of`) for ALL pairs below 4096, plus the zero
+/// divisor for ALL dividends.  (The full 32-bit equivalence of two division circuits does not finish in CBMC here.)
 #[kani::proof]
 fn c20_snd_is_multiple_of() {
     let (a, b): (u32, u32) = (kani::any(), kani::any());
+    assert!(a.is_multiple_of(0) == (a == 0), "C20: is_multiple_of(0) model");
+    kani::assume(a < 4096 && b < 4096);
     assert!(a.is_multiple_of(b) == if b == 0 { a == 0 } else { a % b == 0 }, "C20: is_multiple_of model");
 }
 
